@@ -332,6 +332,24 @@ def r1_3(ctx, R, parts=("who", "clear", "behind")):
                 ready_variants = _payload_variants(ctx, pt["dest"]["ty"])
                 if any((dest, v) in dvf.get(cbb, frozenset()) for v in ready_variants) and d.dominates(pbb, cbb):
                     ok = True
+                if not ok:
+                    # the dequeue sits in an inlined helper whose verdict (an enum) is matched after a join: per feasible
+                    # arrival the dequeue was visited since the previous child poll and its result is known to carry a slot
+                    from lib_flow import sensitive_paths
+                    arrivals = 0
+                    good = True
+                    for kind_, pth, know in sensitive_paths(d, dfl, 2):
+                        last_c = -1
+                        for i_, x_ in enumerate(pth):
+                            if x_ != cbb:
+                                continue
+                            arrivals += 1
+                            seg = pth[last_c + 1:i_]
+                            if pbb not in seg or know[i_].get(dest) not in ready_variants:
+                                good = False
+                            last_c = i_
+                    if arrivals and good:
+                        ok = True
             ctx.ob("R1.3", d, "child-poll-behind-pop-ready@%s" % _site_label(d, cbb), ok, d.loc(cbb))
         # clear obligation per dequeue site
         for pbb, pt, pfn in (pops if "clear" in parts else []):
@@ -700,6 +718,35 @@ def _turn_counter_exhausted(ctx, b, fl, pb, ibb):
     return False, ""
 
 
+def _full_pass_range(b, itx):
+    """The loop iterator gives exactly one turn per group: `0..groups.len()` or `0..=groups.len() - 1` (the length read once,
+    before the loop; the subtraction written as checked_sub(..)? / `- 1` behind an emptiness test)."""
+    itx = strip_refs(itx)
+    while itx[0] == "call" and (itx[1] or "").endswith("into_iter") and itx[2]:
+        itx = strip_refs(itx[2][0])
+
+    def is_len(x):
+        x = strip_refs(x)
+        return x[0] == "call" and (x[1] or "").endswith("::len") and "Vec" in x[1] and not any(x[3] in body for body in b.loops().values())
+    if itx[0] == "agg" and itx[1].endswith("Range::Range"):
+        lo, hi = itx[2]
+        return lo[0] == "const" and lo[2] == "0" and is_len(hi)
+    if itx[0] == "call" and re.search(r"RangeInclusive::<.*>::new$", itx[1] or "") and len(itx[2]) == 2:
+        lo, hi = itx[2]
+        hi = strip_refs(hi)
+        if not (lo[0] == "const" and lo[2] == "0"):
+            return False
+        if hi[0] == "proj" and hi[2] == ("@Some", ".0"):
+            hi = strip_refs(hi[1])
+        if hi[0] == "proj" and hi[2] == (".0",) and hi[1][0] == "binop":
+            hi = hi[1]
+        if hi[0] == "call" and re.search(r"<impl usize>::(checked_sub|wrapping_sub|saturating_sub)$", hi[1] or "") and len(hi[2]) == 2:
+            return is_len(hi[2][0]) and hi[2][1][0] == "const" and hi[2][1][2] == "1"
+        if hi[0] == "binop" and hi[1].startswith("Sub"):
+            return is_len(hi[2]) and hi[3][0] == "const" and hi[3][2] == "1"
+    return False
+
+
 def r1_7(ctx, R):
     ctx.rule("R1.7", "unbounded variants poll every group before Pending: (a) every Pending return is behind "
                      "exhaustion (None) of a Range iterator whose end is Vec::len(groups) read before the loop; (b) "
@@ -743,14 +790,9 @@ def r1_7(ctx, R):
                 dest = place_str(nt["dest"])
                 if (dest, "None") in vf.get(pb, frozenset()):
                     itx = strip_refs(fl.operand_expr(nt["args"][0]))
-                    while itx[0] == "call" and (itx[1] or "").endswith("into_iter"):
-                        itx = strip_refs(itx[2][0])
-                    if itx[0] == "agg" and itx[1].endswith("Range::Range"):
-                        lo, hi = itx[2]
-                        if lo[0] == "const" and lo[2] == "0" and hi[0] == "call" and (hi[1] or "").endswith("::len") \
-                                and "Vec" in hi[1] and not any(hi[3] in body for body in b.loops().values()):
-                            ok = True
-                            det = "Pending behind exhaustion of 0..%s (len read at bb%d, before the loop)" % (expr_str(hi), hi[3])
+                    if _full_pass_range(b, itx):
+                        ok = True
+                        det = "Pending behind exhaustion of one turn per group: %s" % expr_str(itx)[:120]
             if not ok:
                 ok, det = _turn_counter_exhausted(ctx, b, fl, pb, ibb)
             if not ok:
@@ -764,14 +806,7 @@ def r1_7(ctx, R):
                     x = strip_refs(lab[1])
                     if not (x[0] == "call" and "Range" in (x[1] or "") and (x[1] or "").endswith("::next")):
                         return False
-                    itx = strip_refs(x[2][0])
-                    while itx[0] == "call" and (itx[1] or "").endswith("into_iter"):
-                        itx = strip_refs(itx[2][0])
-                    if itx[0] == "agg" and itx[1].endswith("Range::Range"):
-                        lo, hi = itx[2]
-                        return lo[0] == "const" and lo[2] == "0" and hi[0] == "call" and (hi[1] or "").endswith("::len") \
-                            and "Vec" in hi[1] and not any(hi[3] in body for body in b.loops().values())
-                    return False
+                    return _full_pass_range(b, x[2][0])
                 ok2, n2, badp = all_arrivals_cross(b, fl, pb, _range_exhausted)
                 if ok2:
                     ok, det = True, "every one of %d feasible arrivals has crossed the exhaustion of 0..groups.len()" % n2
